@@ -187,13 +187,23 @@ fn c20(rng: &mut Rng, tier: &str, idx: usize) -> Case {
 // ---------------------------------------------------------------- ontology cases
 
 fn onto_case(rng: &mut Rng, prop: &str, _idx: usize) -> Case {
-    let mut c = Case::new("builder");
-    let with_roots = rng.chance(2, 3);
+    // construction path: Builder API, or the binary format v1/v2/v3 (harness-encoded records)
+    let path = rng.below(5);
+    let mut c = Case::new(if path < 2 { "builder" } else { "bytes" });
+    let with_roots = path >= 2 || rng.chance(2, 3);
     let max_terms = *rng.pick(&[4usize, 8, 15, 25, 40]);
-    let (f, shape) = gen_facts(rng, &DagOpts { max_terms, with_roots, max_recs: 6 });
+    let (mut f, shape) = gen_facts(rng, &DagOpts { max_terms, with_roots, max_recs: 6 });
     c.stat(&format!("shape_{shape:?}"), 1);
+    if path < 2 {
+        facts_to_prog(rng, &f, &ProgOpts { shuffle: true, failing_permille: 0, build_defaults: with_roots, slot: 0 }, &mut c);
+    } else {
+        let fv = (path - 1) as u8; // 1, 2, 3
+        let flags = gen_flags(rng, &mut f);
+        c.stat(&format!("binary_v{fv}"), 1);
+        c.stat("obsolete_or_replaced_terms", flags.len() as u64);
+        facts_to_fops(rng, &f, &flags, fv, 0, true, &mut c);
+    }
     let (multi, inh) = facts_stats(&f, &mut c);
-    facts_to_prog(rng, &f, &ProgOpts { shuffle: true, failing_permille: 0, build_defaults: with_roots, slot: 0 }, &mut c);
     c.op("dump 0".to_string());
     match prop {
         "C01" => {
